@@ -12,7 +12,7 @@ state of ANY schedule.
   new server always starts.
 * `acked_consistent_partial` — **partial** (hypothesis: the kill is not between `Truncate(0)` and
   `Write`): every hold whose grant was answered and that has neither left the lock table nor had its
-  lease timer fire is restored, and no hold whose release was answered is.  Operations in flight may
+  lease timer fire nor had its session end is restored, and no hold whose release was answered is.  Operations in flight may
   go either way.  (The "lease timer fired" exemption came from the trace validation of M7: on that
   path `LockServer.Unlock` removes the bookkeeping entry and answers before the callback has taken
   the hold out of the table — the model had no such step and rejected those schedules.)
@@ -21,6 +21,9 @@ state of ANY schedule.
 * `crash_overcapacity_file` — K4 (known finding): the table releases the unit before the bookkeeping
   entry is removed; a re-grant in between is written to the file together with the stale entry: the
   file lists two holds of a size-1 lock.
+* `session_end_leaves_no_stale_entry` — a session end takes its holds out of the bookkeeping (one rewrite)
+  BEFORE its clean-up loop releases them: no image ever lists an ended session's hold next to the hold of
+  the waiter that got its unit.
 * `file_matches_bookkeeping` — outside a rewrite the file is exactly the bookkeeping as of the last
   completed change.
 Power loss / fsync ordering is out of scope (process-kill model).
@@ -33,27 +36,30 @@ structure Inv (s : St) : Prop where
   emptyU  : s.file = .empty → s.unsaved = true
   bh      : ∀ p ∈ s.book, p ∈ s.held ∨ p ∈ s.ended
   endedNH : ∀ p ∈ s.ended, p ∉ s.held
-  grants  : ∀ p ∈ s.ackGrant, p ∉ s.ended → p ∉ s.expiring → p ∈ s.book ∧ (∀ hs, s.file = .table hs → p ∈ hs)
+  grants  : ∀ p ∈ s.ackGrant, p ∉ s.ended → p ∉ s.expiring → p ∉ s.dying → p ∈ s.book ∧ (∀ hs, s.file = .table hs → p ∈ hs)
   rels    : ∀ p ∈ s.ackRel, p ∈ s.booked ∧ p ∉ s.book ∧ (∀ hs, s.file = .table hs → p ∉ hs)
+  bb      : ∀ p ∈ s.book, p ∈ s.booked
+  dy      : ∀ p ∈ s.dying, p ∉ s.book ∧ p ∈ s.booked
+  dyfile  : s.unsaved = false → ∀ p ∈ s.dying, ∀ hs, s.file = .table hs → p ∉ hs
 
 theorem init_inv : Inv init := by
-  refine ⟨?_, ?_, ?_, ?_, ?_, ?_⟩ <;> simp [init]
+  refine ⟨?_, ?_, ?_, ?_, ?_, ?_, ?_, ?_, ?_⟩ <;> simp [init]
 
 set_option maxHeartbeats 1000000 in
 theorem step_inv (s s' : St) (a : Act) (h : Inv s) (hs : step s a = some s') : Inv s' := by
-  obtain ⟨hsv, hem, hbh, hen, hgr, hrl⟩ := h
+  obtain ⟨hsv, hem, hbh, hen, hgr, hrl, hbb, hdy, hdf⟩ := h
   cases a with
   | tableAdd p =>
     simp only [step] at hs
     split at hs
     · cases hs
     · simp at hs; subst hs
-      refine ⟨?_, ?_, ?_, ?_, ?_, ?_⟩ <;> intros <;> simp_all <;> (try (first | done | grind))
+      refine ⟨?_, ?_, ?_, ?_, ?_, ?_, ?_, ?_, ?_⟩ <;> intros <;> simp_all <;> (try (first | done | grind))
   | tableDel p =>
     simp only [step] at hs
     split at hs
     · simp at hs; subst hs
-      refine ⟨?_, ?_, ?_, ?_, ?_, ?_⟩ <;> intros <;> simp_all <;> (try (first | done | grind))
+      refine ⟨?_, ?_, ?_, ?_, ?_, ?_, ?_, ?_, ?_⟩ <;> intros <;> simp_all <;> (try (first | done | grind))
     · cases hs
   | bookAdd p =>
     simp only [step] at hs
@@ -63,19 +69,27 @@ theorem step_inv (s s' : St) (a : Act) (h : Inv s) (hs : step s a = some s') : I
       simp at hcond
       simp at hs; subst hs
       have hne : ∀ q ∈ s.ackRel, q ≠ p := fun q hq e => hcond.2.2.2 (e ▸ (hrl q hq).1)
-      refine ⟨?_, ?_, ?_, ?_, ?_, ?_⟩
+      refine ⟨?_, ?_, ?_, ?_, ?_, ?_, ?_, ?_, ?_⟩
       · intro h; cases h
       · intro h; simp_all
       · intro q hq; simp at hq; rcases hq with hq | hq
         · exact hbh q hq
         · left; rw [hq]; exact hcond.2.1
       · exact hen
-      · intro q hq he hx
-        obtain ⟨h1, h2⟩ := hgr q hq he hx
+      · intro q hq he hx hd
+        obtain ⟨h1, h2⟩ := hgr q hq he hx hd
         exact ⟨by simp; exact Or.inl h1, h2⟩
       · intro q hq
         obtain ⟨h1, h2, h3⟩ := hrl q hq
         exact ⟨by simp; exact Or.inr h1, by simp; exact ⟨h2, hne q hq⟩, h3⟩
+      · intro q hq; simp at hq ⊢; rcases hq with hq | hq
+        · exact Or.inr (hbb q hq)
+        · exact Or.inl hq
+      · intro q hq
+        obtain ⟨h1, h2⟩ := hdy q hq
+        refine ⟨?_, by simp; exact Or.inr h2⟩
+        simp; exact ⟨h1, fun e => hcond.2.2.2 (e ▸ h2)⟩
+      · intro h; cases h
   | bookDel p =>
     simp only [step] at hs
     split at hs
@@ -83,13 +97,13 @@ theorem step_inv (s s' : St) (a : Act) (h : Inv s) (hs : step s a = some s') : I
     · rename_i hcond
       simp at hcond
       simp at hs; subst hs
-      refine ⟨?_, ?_, ?_, ?_, ?_, ?_⟩
+      refine ⟨?_, ?_, ?_, ?_, ?_, ?_, ?_, ?_, ?_⟩
       · intro h; cases h
       · intro h; simp_all
       · intro q hq; exact hbh q (List.mem_filter.mp hq).1
       · exact hen
-      · intro q hq he hx
-        obtain ⟨h1, h2⟩ := hgr q hq he hx
+      · intro q hq he hx hd
+        obtain ⟨h1, h2⟩ := hgr q hq he hx hd
         refine ⟨?_, h2⟩
         have hqp : q ≠ p := by
           intro e
@@ -100,39 +114,72 @@ theorem step_inv (s s' : St) (a : Act) (h : Inv s) (hs : step s a = some s') : I
       · intro q hq
         obtain ⟨h1, h2, h3⟩ := hrl q hq
         exact ⟨h1, fun hm => h2 (List.mem_filter.mp hm).1, h3⟩
+      · intro q hq; exact hbb q (List.mem_filter.mp hq).1
+      · intro q hq
+        obtain ⟨h1, h2⟩ := hdy q hq
+        exact ⟨fun hm => h1 (List.mem_filter.mp hm).1, h2⟩
+      · intro h; cases h
   | truncate =>
     simp only [step] at hs
     split at hs
     · simp at hs; subst hs
-      refine ⟨?_, ?_, ?_, ?_, ?_, ?_⟩ <;> intros <;> simp_all <;> (try (first | done | grind))
+      refine ⟨?_, ?_, ?_, ?_, ?_, ?_, ?_, ?_, ?_⟩ <;> intros <;> simp_all <;> (try (first | done | grind))
     · cases hs
   | write =>
     simp only [step] at hs
     split at hs
     · simp at hs; subst hs
-      refine ⟨?_, ?_, ?_, ?_, ?_, ?_⟩ <;> intros <;> simp_all <;> (try (first | done | grind))
+      refine ⟨?_, ?_, ?_, ?_, ?_, ?_, ?_, ?_, ?_⟩ <;> intros <;> simp_all <;> (try (first | done | grind))
     · cases hs
   | answerGrant p =>
     simp only [step] at hs
     split at hs
     · simp at hs; subst hs
-      refine ⟨?_, ?_, ?_, ?_, ?_, ?_⟩ <;> intros <;> simp_all <;> (try (first | done | grind))
+      refine ⟨?_, ?_, ?_, ?_, ?_, ?_, ?_, ?_, ?_⟩ <;> intros <;> simp_all <;> (try (first | done | grind))
     · cases hs
   | answerRelease p =>
     simp only [step] at hs
     split at hs
     · simp at hs; subst hs
-      refine ⟨?_, ?_, ?_, ?_, ?_, ?_⟩ <;> intros <;> simp_all <;> (try (first | done | grind))
+      refine ⟨?_, ?_, ?_, ?_, ?_, ?_, ?_, ?_, ?_⟩ <;> intros <;> simp_all <;> (try (first | done | grind))
     · cases hs
   | expire p =>
     simp only [step] at hs
     split at hs
     · simp at hs; subst hs
-      refine ⟨hsv, hem, hbh, hen, ?_, hrl⟩
-      intro q hq he hx
+      refine ⟨hsv, hem, hbh, hen, ?_, hrl, hbb, hdy, hdf⟩
+      intro q hq he hx hd
       simp at hx
-      exact hgr q hq he hx.2
+      exact hgr q hq he hx.2 hd
     · cases hs
+  | destroy ps =>
+    simp only [step] at hs
+    split at hs
+    · cases hs
+    · rename_i hcond
+      simp at hcond
+      simp at hs; subst hs
+      refine ⟨?_, ?_, ?_, ?_, ?_, ?_, ?_, ?_, ?_⟩
+      · intro h; cases h
+      · intro h; simp_all
+      · intro q hq; exact hbh q (List.mem_filter.mp hq).1
+      · exact hen
+      · intro q hq he hx hd
+        simp at hd
+        obtain ⟨h1, h2⟩ := hgr q hq he hx hd.2
+        refine ⟨?_, h2⟩
+        simp; exact ⟨h1, hd.1⟩
+      · intro q hq
+        obtain ⟨h1, h2, h3⟩ := hrl q hq
+        exact ⟨h1, fun hm => h2 (List.mem_filter.mp hm).1, h3⟩
+      · intro q hq; exact hbb q (List.mem_filter.mp hq).1
+      · intro q hq
+        simp at hq
+        rcases hq with hq | hq
+        · exact ⟨by simp; intro _; exact hq, hbb q (hcond.2 q.1 q.2 hq)⟩
+        · obtain ⟨h1, h2⟩ := hdy q hq
+          exact ⟨fun hm => h1 (List.mem_filter.mp hm).1, h2⟩
+      · intro h; cases h
 
 theorem reachable_inv : ∀ (as : List Act) (s s' : St), Inv s → run s as = some s' → Inv s' := by
   intro as
@@ -160,7 +207,7 @@ theorem empty_image_loads : (Ldlm.Codec.File.load { bytes := [] }).1 = .ok [] :=
 
 /-- **C09 (partial: the kill is not inside a rewrite)** -/
 theorem acked_consistent_partial (as : List Act) (s : St) (hr : run init as = some s) (hout : ¬ inRewrite s) :
-    (∀ p ∈ s.ackGrant, p ∉ s.ended → p ∉ s.expiring → p ∈ recovered s) ∧ (∀ p ∈ s.ackRel, p ∉ recovered s) := by
+    (∀ p ∈ s.ackGrant, p ∉ s.ended → p ∉ s.expiring → p ∉ s.dying → p ∈ recovered s) ∧ (∀ p ∈ s.ackRel, p ∉ recovered s) := by
   have hi := reachable_inv as init s init_inv hr
   unfold inRewrite at hout
   unfold recovered
@@ -168,11 +215,32 @@ theorem acked_consistent_partial (as : List Act) (s : St) (hr : run init as = so
   | empty => exact absurd hf hout
   | table hs =>
     simp only
-    exact ⟨fun p hp he hx => (hi.grants p hp he hx).2 hs hf, fun p hp => (hi.rels p hp).2.2 hs hf⟩
+    exact ⟨fun p hp he hx hd => (hi.grants p hp he hx hd).2 hs hf, fun p hp => (hi.rels p hp).2.2 hs hf⟩
 
 theorem file_matches_bookkeeping (as : List Act) (s : St) (hr : run init as = some s) (hsaved : s.unsaved = false) :
     s.file = .table s.book :=
   (reachable_inv as init s init_inv hr).saved hsaved
+
+/-- a session end never leaves a stale entry: the holds of an ended session are out of the bookkeeping from the
+moment `DestroySession` has run - before the clean-up loop gives their capacity to anybody else - and out of
+the file once that rewrite has finished. (K4's over-capacity file needs the other order - table first - which
+only Unlock and the lease callback have.) -/
+theorem session_end_leaves_no_stale_entry (as : List Act) (s : St) (hr : run init as = some s) :
+    ∀ p ∈ s.dying, p ∉ s.book ∧ (s.unsaved = false → p ∉ recovered s) := by
+  have hi := reachable_inv as init s init_inv hr
+  intro p hp
+  refine ⟨(hi.dy p hp).1, ?_⟩
+  intro hu
+  unfold recovered
+  cases hf : s.file with
+  | empty => simp
+  | table hs => exact hi.dyfile hu p hp hs hf
+
+/-- … so a waiter that gets the unit of an ended session's hold is written to a file that no longer lists that hold -/
+example : (run init [.tableAdd (1, 1), .bookAdd (1, 1), .truncate, .write, .answerGrant (1, 1),
+                     .destroy [(1, 1)], .truncate, .write, .tableDel (1, 1),
+                     .tableAdd (1, 2), .bookAdd (1, 2), .truncate, .write, .answerGrant (1, 2)]).map
+    (fun s => (recovered s, s.dying)) = some ([(1, 2)], [(1, 1)]) := by decide
 
 /-! ### K3, K4: the two recorded violations of the unrestricted statement -/
 
